@@ -3,13 +3,13 @@ import family
 import gen
 import lpev
 from props.c07 import comb
-from props.c08 import print_twin, scaled, weakened
+from props.c08 import first_coefficient_twin, near_twin, permuted_twin, print_twin, scaled, weakened
 from vcommon import seed
 
 PROP = "C03"
 FAMS = ["reflexive", "sublist", "combination", "scaled", "equal_bounds", "infeasible_left", "empty_right",
         "separated", "feasible_vs_infeasible", "empty_left", "random", "contract_weaken", "contract_under_assumptions",
-        "contract_itf", "membership", "print_twin", "huge_constant", "contract_infeasible_side", "infeasible_left_disconnected"]
+        "contract_itf", "membership", "print_twin", "huge_constant", "contract_infeasible_side", "infeasible_left_disconnected", "contract_twin"]
 
 
 def feasible_list(rng, vs, n, dy=0.0):
@@ -51,7 +51,7 @@ def gen_case(rng, i):
         bad = [({"q": 1}, 0), ({"q": -1}, -k)] if r_ < 0.4 else ([({"q": 1, "r": 1}, 0), ({"q": -1, "r": -1}, -k)] if r_ < 0.7 else [({}, -k)])   # or a row without variables: 0 <= -k
         Ld = L + bad
         rng.shuffle(Ld)
-        c.update(L=Ld, R=gen.rlist_raw(rng, vs, 1, 2) if rng.random() < 0.7 else [weakened(rng.choice(L), -3)])
+        c.update(L=Ld, R=gen.rlist_raw(rng, vs, 1, 2) if rng.random() < 0.5 else ([weakened(rng.choice(L), -3)] if rng.random() < 0.5 else [({"t": 1}, 3)]))   # or a right side over a variable the left never mentions
     elif fam == "empty_right":
         c.update(L=L, R=[])
     elif fam == "separated":
@@ -89,13 +89,30 @@ def gen_case(rng, i):
             c2 = {"inv": list(inv), "outv": list(outv), "a": a1 + [weakened(a1[0], -rng.choice([0, 1]))], "g": [weakened(r, rng.choice([0, 1])) for r in g1]}
             if rng.random() < 0.3:
                 c2["inv"] = list(reversed(c2["inv"]))
-        elif fam == "contract_under_assumptions":
+        elif fam in ("contract_under_assumptions", "contract_twin"):
+            if fam == "contract_twin":
+                # the assumption that is used has two variables with different coefficients, so that it HAS twins
+                if len(inv) < 2:
+                    inv = inv + ["q2"]
+                a1 = [({inv[0]: rng.choice([1, 2, -1]), inv[1]: rng.choice([3, -2, 4])}, rng.randint(0, 3))] + a1[:1]
+                c1 = dict(c1, inv=list(inv), a=list(a1))
             # guarantee inclusion that holds only under the right side's assumptions: G2 = G1 + a2-row
             extra = a1[0]
             g2 = [({v: g1[0][0].get(v, 0) + extra[0].get(v, 0) for v in set(g1[0][0]) | set(extra[0])}, g1[0][1] + extra[1])]
             g2 = [({v: a for v, a in g2[0][0].items() if a != 0}, g2[0][1])]
             c2 = {"inv": list(inv), "outv": list(outv), "a": list(a1), "g": g2 if g2[0][0] else list(g1)}
             c1 = dict(c1, a=[])  # left assumes nothing: weaker assumptions
+            if fam == "contract_twin" or rng.random() < 0.3:
+                # the left side also guarantees a TWIN of the right side's assumption (same variables and bound; coefficients exchanged, or the
+                # first one changed, or one off by 10^-5 of itself): a different constraint, the assumption itself must still be used
+                k_ = rng.random()
+                tw = permuted_twin(extra) if k_ < 0.4 else (first_coefficient_twin(extra) if k_ < 0.7 else None)
+                if tw is None:
+                    base, tw = near_twin(rng, extra)
+                    c2["a"] = [base] + list(a1[1:])
+                    c2["g"] = [({v: g1[0][0].get(v, 0) + base[0].get(v, 0) for v in set(g1[0][0]) | set(base[0])}, g1[0][1] + base[1])]
+                    c2["g"] = [({v: a for v, a in c2["g"][0][0].items() if a != 0}, c2["g"][0][1])] if any(c2["g"][0][0].values()) else list(g1)
+                c1 = dict(c1, g=[tw] + list(g1))
         elif fam == "contract_infeasible_side":
             # one side cannot be satisfied at all: guarantees that contradict each other on the left (the assumption condition still has
             # to hold: here it does not, the left assumes strictly more), or assumptions that contradict each other on the right
